@@ -97,7 +97,7 @@ CLAIMED['C04'] = dict(
          'Alias.applyCert must equal the real result net for net. Over the tables regenerated from passes.py: every '
          'constant-folding rule is sound at every width, CSE reorders arguments only of commutative ops, table consistency. '
          'dead_logic_removal_run_eq: _remove_unlistened_nets as Dead.applyDead of a closed removal (deadOk) preserves every Output and kept wire in every run, '
-         'tied the same way. PARTIAL: constant propagation has value-level theorems and the Spec-model oracle only; calls of the dead-logic pass that remove a register net are outside the model. '
+         'tied the same way. Constant propagation is the same transformation with more justifications (Alias.justConst/justConst1/justIdent/rewriteJustified: folds computed from the specification by foldVal, one-bit gates with one constant operand by their truth table, nets driving Outputs rewritten into w nets) and is tied the same way, per pass. PARTIAL: folding a register into a constant and removing a dead register are outside the model (oracle only). '
          'Whole-pass preservation (each pass and optimize, on word-level / synthesized / NAND / AIG blocks, repeated application, '
          'I/O kept, result well-formed, eliminated registers started at their settled constant) is also decided by evaluating '
          'both netlists in the Lean Spec model.',
@@ -121,8 +121,8 @@ CLAIMED['C09'] = dict(
          '(…_post). The model passes are tied STRUCTURALLY to the code: on every run the real pass output must equal the model '
          'output net for net up to the names of temporaries, and the decidable hypotheses of the theorems (wfB, chainOkB, '
          'isTopo of the lowered schedule) are evaluated on every tested block. Value-level theorems as before (gate rules '
-         'regenerated from passes.py, concat/select/fan-out tree). PARTIAL: two_way_fanout has the tree lemma and the '
-         'Spec-model oracle only. lowered_schedule_is_dependency_order / net_transform_passes_run_eq_any_order: the lowered schedule is a dependency order, so the run theorems hold under any dependency order of the lowered nets. '
+         'regenerated from passes.py, concat/select/fan-out tree). two_way_fanout_run_eq: removing the w nets the pass inserted is a justified alias elimination (C04 Alias development) on the block after the pass whose result is the block before it, checked per block. '
+         ' lowered_schedule_is_dependency_order / net_transform_passes_run_eq_any_order: the lowered schedule is a dependency order, so the run theorems hold under any dependency order of the lowered nets. '
          'Behaviour, sanity_check, I/O preservation and postconditions of every pass and random pass sequences are also '
          'decided on the real result in the Lean Spec model.',
     design='4 C09',
